@@ -1,4 +1,91 @@
 import SSModel.Format
-/-! C19 — placeholder; theorems follow. -/
+/-!
+C19 — standard-library summaries and flat format faithfully project the Stack.
+Property theorems only; model `SSModel/Format.lean` (`sumStack`, `formatFlat`).
+-/
 open SS.Format
-theorem C19_placeholder : True := trivial
+
+/-- **C19_plain**: without contexts the summary is exactly one entry per non-hidden frame (all frames with
+show_hidden_frames), in order, carrying that frame's filename, line number and function name — whatever
+contexts, inner stacks and children hang off the frames, and whatever `capture_locals` is. -/
+theorem C19_plain (sh cl : Bool) (root : Option String) (frames : Frames) (leaf : Option String) (err : Option (List String)) :
+    sumStack false sh cl (.mk root frames leaf err)
+      = (frames.toList.filter (fun f => !f.hidden || sh)).map ownSummary := by
+  have hf : ∀ fs : Frames, sumFrames false sh cl fs = (fs.toList.filter (fun f => !f.hidden || sh)).map ownSummary := by
+    intro fs
+    exact plain_frames sh cl fs
+  simp only [sumStack, hf]
+where
+  plain_frames (sh cl : Bool) : ∀ fs : Frames, sumFrames false sh cl fs = (fs.toList.filter (fun f => !f.hidden || sh)).map ownSummary
+    | .nil => rfl
+    | .cons f rest => by
+      have ih := plain_frames sh cl rest
+      cases f with
+      | mk head file func lineno code hide ctxs =>
+        simp only [sumFrames, sumFrame, Frames.toList, List.filter_cons, Frame.hidden, ih]
+        cases hide <;> cases sh <;> simp [ownSummary]
+
+/-- **C19_hidden**: a hidden frame contributes nothing (neither its own entry nor those of its contexts)
+unless show_hidden_frames; with it, it is treated like any other frame. -/
+theorem C19_hidden (sc cl : Bool) (head file func : String) (lineno : Nat) (code : String) (ctxs : Contexts) :
+    sumFrame sc false cl (.mk head file func lineno code true ctxs) = []
+    ∧ sumFrame sc true cl (.mk head file func lineno code true ctxs) = sumFrame sc true cl (.mk head file func lineno code false ctxs) := by
+  simp [sumFrame]
+
+/-- **C19_frame_with_contexts**: with contexts shown, a visible frame's entries are those of its
+contexts (each followed by its inner stack and child contexts) and then the frame's own entry, which
+is omitted exactly when the last context is exiting. -/
+theorem C19_frame_with_contexts (sh cl : Bool) (head file func : String) (lineno : Nat) (code : String) (ctxs : Contexts) :
+    sumFrame true sh cl (.mk head file func lineno code false ctxs)
+      = sumContexts sh cl file func lineno ctxs ++ (if ctxs.lastExiting then [] else [⟨file, lineno, func, none, none, true⟩]) := by
+  simp [sumFrame]
+
+/-- **C19_context_entry**: a visible context's entries start with its own entry, located in the parent
+frame's file at the with-line (the frame's line when there is no start_line), named after the frame's
+function plus the manager info, with an explicit empty source line when there is no start_line, and
+carrying the fictitious `<context manager>` local iff capture_locals; then come its inner stack (with
+contexts) and its child contexts. -/
+theorem C19_context_entry (sh cl : Bool) (file func : String) (lineno : Nat) (src : String) (desc : Option String) (isAsync : Bool)
+    (objType varname : Option String) (startLine : Option Nat) (ex : Bool) (r1 r2 : String) (inner : Option Stack) (ch : Children) :
+    ∃ e rest, sumContext sh cl file func lineno none (.mk src desc isAsync objType varname startLine false ex r1 r2 inner ch) = e :: rest
+      ∧ e.filename = file
+      ∧ e.lineno = (match startLine with | some n => if n = 0 then lineno else n | none => lineno)
+      ∧ e.name = func ++ (if (nameAndType objType varname).isEmpty then "" else " (" ++ nameAndType objType varname ++ ")")
+      ∧ (e.ctxLocal.isSome = cl)
+      ∧ (startLine = none → e.line = some "")
+      ∧ rest = sumInner sh cl inner ++ sumChildren sh cl file func lineno ch := by
+  refine ⟨ctxEntry cl file func lineno none desc objType varname startLine r2, _, ?_, rfl, rfl, rfl, ?_, ?_, rfl⟩
+  · simp [sumContext]
+  · cases cl <;> rfl
+  · intro h; subst h; rfl
+
+/-- A hidden context (and everything below it) is skipped unless show_hidden_frames. -/
+theorem C19_hidden_context (cl : Bool) (file func : String) (lineno : Nat) (ov : Option String) (src : String) (desc : Option String)
+    (isAsync : Bool) (objType varname : Option String) (startLine : Option Nat) (ex : Bool) (r1 r2 : String) (inner : Option Stack) (ch : Children) :
+    sumContext false cl file func lineno ov (.mk src desc isAsync objType varname startLine true ex r1 r2 inner ch) = [] := by
+  simp [sumContext]
+
+/-- **C19_flat**: `format_flat` is the header, then (only if the stack has frames) the standard
+rendering of the default summary (no hidden frames, no locals), then the leaf line, then the error
+lines — the same header and error block as the tree format. -/
+theorem C19_flat (sc : Bool) (root : Option String) (frames : Frames) (leaf : Option String) (err : Option (List String)) :
+    let f := formatFlat sc (.mk root frames leaf err)
+    f.header = headerText root
+    ∧ f.summary = (if frames.isEmpty then none else some (sumStack sc false false (.mk root frames leaf err)))
+    ∧ f.leafLine = leaf.map (fun r => "  Target of innermost frame: " ++ r ++ "\n")
+    ∧ f.errorBlock = (errorLines err).map (·.text) := by
+  simp [formatFlat]
+
+/-- **C19_no_frames**: a summary entry consists of strings, a number and flags only — there is no field
+in which a frame (or any other live object) could be kept. -/
+theorem C19_no_frames (s : Summary) :
+    s = ⟨s.filename, s.lineno, s.name, s.line, s.ctxLocal, s.isFrameEntry⟩ := rfl
+
+/-! non-vacuity -/
+def exS : Stack :=
+  .mk none (.cons (.mk "h" "x.py" "f" 7 "code" false
+      (.cons (.mk "" (some "desc") false (some "CM") (some "a") (some 3) false true "ctxrepr" "objrepr" none
+        (.ctx (.mk "" none false none none none false false "childrepr" "None" none .nil) .nil)) .nil)) .nil) none none
+
+example : sumStack true false true exS =
+  [⟨"x.py", 3, "f (a: CM)", none, some "desc", false⟩, ⟨"x.py", 7, "f", some "# childrepr", some "None", false⟩] := by decide
